@@ -219,6 +219,7 @@ static gset gset_none(void){ gset s = {true, false}; return s; }
 static gset gset_selected(void){ gset s = {false, nondet_bool()}; return s; }           /* selectTensors: a non-empty set, any relation to the current tensors */
 static gset gset_minus_tensors(gset a){ gset s = {nondet_bool(), false}; if (a.empty) s.empty = true; return s; }
 static gset gset_plus_tensors(gset a){ gset s = {false, true}; return s; }
+static gset gset_plus_other(gset a){ gset s = {false, a.sup}; return s; }      /* union with a set other than the current tensors: still not known to contain them */
 void fam_makeGrid(GU *self){ self->updated_tensors = gset_none(); }                       /* a fresh grid has no pending refinement (makeGrid ends in setTensors, which resets it) */
 void fam_clearRefinement(GU *self){ self->updated_tensors = gset_none(); }
 void fam_proposeUpdatedTensors(GU *self){ }
